@@ -208,7 +208,9 @@ Definition str_matches (d : doc) (sid : nat) (o : implstr) : bool :=
   let '(rid, em, (gs, xo, pat, sh)) := o in
   match res_of d sid with
   | Some (rid', r) =>
-      Nat.eqb rid rid' && list_eqb2 rname_eqb (rev (emitted d sid)) em &&
+      (* Stream.set_alpha skips a repeated alpha (its cache, model C16Stream): names are compared as sets *)
+      Nat.eqb rid rid' && forallb (fun n => existsb (rname_eqb n) em) (emitted d sid) &&
+      forallb (fun n => existsb (rname_eqb n) (emitted d sid)) em &&
       list_eqb2 key_eqb (map fst (r_gs r)) gs && list_eqb2 rname_eqb (map fst (r_xo r)) xo &&
       list_eqb2 Z.eqb (map fst (r_pat r)) pat && list_eqb2 Z.eqb (r_sh r) sh
   | None => false
